@@ -35,7 +35,9 @@ const (
 var classes = []string{"valid-A", "valid-B", "duplicate-A", "len-63", "len-65", "len-1100", "len-6", "wrong-protocol", "wrong-function", "function-ff", "non-bcd-date", "calendar-invalid-date",
 	// a well-formed reply that reaches the client's port over IPv6 (the discovery socket, opened on the
 	// wildcard address, is dual-stack): received like any other
-	"valid-A-over-ipv6"}
+	"valid-A-over-ipv6",
+	// an empty datagram (a successful zero-byte read): malformed like any other wrong length
+	"len-0"}
 
 // debugClient: the client of the scenario is built with debug = true (set by the scenario body)
 var debugClient = false
@@ -62,6 +64,8 @@ func reply(class string, k int) []byte {
 		d = d[:63]
 	case "len-6":
 		d = d[:6]
+	case "len-0":
+		d = d[:0]
 	case "function-ff":
 		d[1] = 0xff
 	case "len-65": // a well-formed reply followed by one more byte: too long, whatever its first 64 bytes say
@@ -473,7 +477,7 @@ func main() {
 	if r.Worker == "" && r.Replay == "" {
 		vs.Run(nil, nil, vs.Options{}, func() { mappingSweep(r) })
 	}
-	r.Rule("every sequence of 0..2 datagrams over 13 classes (valid A/B, duplicate, a valid reply arriving over IPv6, 6 and 63 bytes, 65 and 1100 bytes with a well-formed 64-byte prefix, wrong protocol id, wrong function code, function code 0xff, non-BCD and calendar-invalid date), every 2-datagram sequence also through a client built with debug = true, x 5 arrival times (0.1T, 0.5T, T-e, T, T+e), every 3-datagram class sequence at two fixed time patterns (thorough: also every 3-datagram sequence at every arrival-time combination, simultaneous arrivals and 4 datagrams at two time patterns), broadcast address unset / port 60005, each under all interleavings of the reader goroutine and the sleeping caller within the preemption bound; two overlapping GetDevices calls on one client, the second receiving 3 / 40 replies in the instant the first one's window ends (<= 1 preemption), and 1100 replies on the default schedule; plus a driver-level sweep of one reply through the result mapping (every byte value of address/mask/gateway/MAC/version/serial, all 65536 version, year and month-day byte pairs) x {unnamed + default port, named + port 60005}. distinct = distinct (entries, datagrams) labels")
+	r.Rule("every sequence of 0..2 datagrams over 14 classes (valid A/B, duplicate, a valid reply arriving over IPv6, an empty datagram, 6 and 63 bytes, 65 and 1100 bytes with a well-formed 64-byte prefix, wrong protocol id, wrong function code, function code 0xff, non-BCD and calendar-invalid date), every 2-datagram sequence also through a client built with debug = true, x 5 arrival times (0.1T, 0.5T, T-e, T, T+e), every 3-datagram class sequence at two fixed time patterns (thorough: also every 3-datagram sequence at every arrival-time combination, simultaneous arrivals and 4 datagrams at two time patterns), broadcast address unset / port 60005, each under all interleavings of the reader goroutine and the sleeping caller within the preemption bound; two overlapping GetDevices calls on one client, the second receiving 3 / 40 replies in the instant the first one's window ends (<= 1 preemption), and 1100 replies on the default schedule; plus a driver-level sweep of one reply through the result mapping (every byte value of address/mask/gateway/MAC/version/serial, all 65536 version, year and month-day byte pairs) x {unnamed + default port, named + port 60005}. distinct = distinct (entries, datagrams) labels")
 	r.Assume("a reply with a calendar-invalid BCD date may be dropped or reported with the zero date (the property lists only non-BCD dates as malformed)")
 	r.Finish()
 }
